@@ -237,7 +237,15 @@ def run(repo: Repo, chk: Check, thorough: bool = False) -> None:
     handled: Set[str] = set()
     for n in tn.walk():
         if isinstance(n, ast.Compare) and norm(n.left) == 'tree.tag':
-            for c in ast.walk(n.comparators[0]):
+            cmpv: ast.AST = n.comparators[0]
+            # `tree.tag in self._TABLE`: a class / module constant whose keys (or elements) are the tags
+            nm_ = cmpv.attr if isinstance(cmpv, ast.Attribute) and dotted(cmpv.value) in ('self', 'cls') else cmpv.id if isinstance(cmpv, ast.Name) else None
+            if nm_ and tn.cls is not None and nm_ in tn.cls.aliases:
+                cmpv = tn.cls.aliases[nm_]
+            elif nm_ and nm_ in tn.mod.assigns:
+                cmpv = tn.mod.assigns[nm_]
+            consts = list(cmpv.keys) if isinstance(cmpv, ast.Dict) else list(ast.walk(cmpv))
+            for c in consts:
                 s = const_str(c)
                 if s:
                     handled.add(s)
